@@ -572,11 +572,12 @@ pub fn apply_real<A: Subject + AllPairs>(a: &mut A, step: &Step) -> Ret {
             Err(_) => Ret::Skipped,
         },
         Step::Zeros(n) => {
-            *a = A::zeros(*n);
+            // both spellings of the constructor
+            *a = if *n % 2 == 1 { A::repeat(Bit::Zero, *n) } else { A::zeros(*n) };
             Ret::None
         }
         Step::Ones(n) => {
-            *a = A::ones(*n);
+            *a = if *n % 2 == 1 { A::repeat(Bit::One, *n) } else { A::ones(*n) };
             Ret::None
         }
         Step::WithCapacity(n) => {
